@@ -52,6 +52,7 @@ type runHooks struct {
 	paths         int
 	dropped       int // paths ended by infeasible assumptions
 	endedByAssert int
+	kfCount       map[string]int
 	aborted       map[string]int
 	reached       map[string]bool
 	uncaught      []Obligation
@@ -307,9 +308,14 @@ func (ex *Exec) assertOblN(c *Term, id string, kfs []string, regions []*Term) {
 		}
 		// (1) inside the region of an open finding the violation is looked for (and later replayed)
 		inq := ts.And(regions[i], ts.Not(c))
-		if !inq.IsConst() || inq.cBool() {
+		if h.kfCount == nil {
+			h.kfCount = map[string]int{}
+		}
+		// the finding only needs to be re-confirmed a couple of times per instance, not on every path
+		if (!inq.IsConst() || inq.cBool()) && h.kfCount[kf] < 2 {
 			vd, model := ex.sol.Check(inq, ex.nondetVars())
 			if vd == Sat {
+				h.kfCount[kf]++
 				h.obls = append(h.obls, Obligation{ID: id, PathNo: h.pathNo, KF: kf, InRegion: true, Verdict: "known-finding", Model: ex.completeModel(model)})
 			}
 		}
